@@ -312,6 +312,17 @@ thread_local! { pub static CONVS: std::cell::Cell<usize> = std::cell::Cell::new(
 /// conversions from &str are COUNTED: a parser may convert the input only when it really builds the catch-all variant
 impl<'a> From<&'a str> for Wrap { fn from(s: &'a str) -> Wrap { CONVS.with(|c| c.set(c.get() + 1)); Wrap(s.to_string()) } }
 pub fn take_convs() -> usize { CONVS.with(|c| c.replace(0)) }
+/// a GENERIC user type that is Display / AsRef<str> / From<&str> / Default / Clone / PartialEq / Debug for EVERY K (K only tags it): the inner type
+/// of default / transparent variants of generic enums instantiated with a K that implements none of these (NoDef)
+pub struct Id<K>(pub String, pub std::marker::PhantomData<K>);
+impl<K> Default for Id<K> { fn default() -> Self { Id(String::new(), std::marker::PhantomData) } }
+impl<K> Clone for Id<K> { fn clone(&self) -> Self { Id(self.0.clone(), std::marker::PhantomData) } }
+impl<K> PartialEq for Id<K> { fn eq(&self, o: &Self) -> bool { self.0 == o.0 } }
+impl<K> std::fmt::Debug for Id<K> { fn fmt(&self, f: &mut std::fmt::Formatter) -> std::fmt::Result { write!(f, "Id({:?})", self.0) } }
+impl<K> std::fmt::Display for Id<K> { fn fmt(&self, f: &mut std::fmt::Formatter) -> std::fmt::Result { std::fmt::Display::fmt(&self.0, f) } }
+impl<K> AsRef<str> for Id<K> { fn as_ref(&self) -> &str { &self.0 } }
+impl<'a, K> From<&'a str> for Id<K> { fn from(s: &'a str) -> Self { Id(s.to_string(), std::marker::PhantomData) } }
+impl<K> FObs for Id<K> { fn fobs(&self) -> String { fobs_str(&self.0) } }
 /// a payload whose `Default` is OBSERVABLE (constructions are counted) and which also has an inherent `default()` that returns something
 /// else: only `Default::default()` of the values actually returned may run, and it is the trait's
 #[derive(Debug, Clone, PartialEq)]
